@@ -24,15 +24,16 @@ RULE = ("roundtrip: history of 2-8 revisions (merges with up to 3 parents, "
         "left out and counted, label suffix +excluded): a revision taking "
         "again a path that a rename of the same revision vacated (swap, rename "
         "chain, rename + add at the old path) and renaming a directory that "
-        "has children - the four root causes of F25, each exercised on its own "
-        "in the 'shapes' kind (13 hand-picked single-commit shapes x {plain "
+        "has children, and renaming a directory onto a path deleted in the "
+        "same revision - the root causes of F25, each exercised on its own "
+        "in the 'shapes' kind (14 hand-picked single-commit shapes x {plain "
         "commit, merge commit}), where a failure carries the shape's own "
         "signature. Non-trivial: history with a merge and a rename; distinct "
         "by case hash.")
 ASSUMPTIONS = ["the python-fastimport parser (third party) is trusted"]
 LEVEL_TEXT = "Sampled histories, full round trip, structural comparison."
 LEVEL_NOTE = "Bounded histories (<= 8 revisions)."
-REGISTERED = False
+REGISTERED = True
 NONTRIVIAL_FLOOR = {"quick": 30, "thorough": 1000}
 
 
@@ -187,6 +188,8 @@ SHAPES = {
         ["add", "f7-id", "root-id", "l", "file", "L\n", False]],
     "move-out-of-deleted-directory": [["rename", "f4-id", "root-id", "z"],
                                       ["delete", "f3-id"]],
+    "empty-dir-rename-onto-deleted-path": [
+        ["add", "f7-id", "root-id", "emptyd", "directory", None, False]],
     "exec-bit-only": [["chmod", "f1-id", True]],
     "symlink-retarget": [["retarget", "f5-id", "b"]],
 }
@@ -203,15 +206,22 @@ def _shape_spec(case):
         return {"id": "r%d" % i, "parents": parents, "ghosts": [],
                 "ops": ops, "msg": "m%d" % i, "ts": bz.T0 + i, "tz": 0,
                 "committer": history.COMMITTERS[0], "props": {}}
-    revs = [rev(0, [], [list(o) for o in BASE_OPS])]
+    base_ops = [list(o) for o in BASE_OPS]
+    shape_ops = [list(o) for o in SHAPES[case["shape"]]]
+    if case["shape"] == "empty-dir-rename-onto-deleted-path":
+        # an empty directory exists beforehand; the commit deletes file a and
+        # renames the directory to a
+        base_ops += shape_ops
+        shape_ops = [["delete", "f1-id"],
+                     ["rename", "f7-id", "root-id", "a"]]
+    revs = [rev(0, [], base_ops)]
     if case["merge"]:
         # the shape sits in a merge revision (diffed against its first parent)
         revs.append(rev(1, ["r0"], [["modify", "f6-id", "C2\n"]]))
-        revs.append(rev(2, ["r0", "r1"],
-                        [list(o) for o in SHAPES[case["shape"]]]))
+        revs.append(rev(2, ["r0", "r1"], shape_ops))
         revs.append(rev(3, ["r2"], [["modify", "f2-id", "B9\n"]]))
     else:
-        revs.append(rev(1, ["r0"], [list(o) for o in SHAPES[case["shape"]]]))
+        revs.append(rev(1, ["r0"], shape_ops))
         revs.append(rev(2, ["r1"], [["modify", "f2-id", "B9\n"]]))
     return {"revs": revs, "tags": {"t": revs[-2]["id"]}}
 
